@@ -17,7 +17,7 @@ import (
 var c16Vars = []string{"python_version", "python_full_version", "implementation_version", "os_name", "sys_platform",
 	"platform_machine", "platform_system", "implementation_name", "platform_python_implementation"}
 var c16Ops = []string{"<=", "<", "!=", "==", ">=", ">", "~=", "in", "not in"}
-var c16Lits = []string{"d", "d.d", "d.d.d", "lll", "posix", "linux", "3.9", "3.9.6", "l", "vd.d", "Vd.d.d", "v3.9"}
+var c16Lits = []string{"d", "d.d", "d.d.d", "lll", "posix", "linux", "3.9", "3.9.6", "l", "vd.d", "Vd.d.d", "v3.9", " d.d", "d.d ", " 3.9"}
 var c16D = [...]string{"0", "1", "2", "3"}
 
 func c16Lit(t, tag string) string {
@@ -48,7 +48,7 @@ func c16Release(s string) ([3]int, int) {
 			n++
 			continue
 		}
-		if s[i] == 'v' || s[i] == 'V' { // PEP 440 admits a leading v
+		if s[i] == 'v' || s[i] == 'V' || s[i] == ' ' { // PEP 440 admits a leading v; packaging strips white space around a version
 			continue
 		}
 		r[n] = r[n]*10 + int(s[i]-'0')
